@@ -14,6 +14,13 @@ use essential_types::{
 };
 use essential_vm::asm::{self, short::*, Op};
 
+/// Set under Miri / TSan: no wide forks, no long ranges (the interpreter is ~10^4 times slower).
+pub static TINY: std::sync::atomic::AtomicBool = std::sync::atomic::AtomicBool::new(false);
+
+fn tiny() -> bool {
+    TINY.load(std::sync::atomic::Ordering::Relaxed)
+}
+
 #[derive(Clone, Debug)]
 pub struct GenOpts {
     pub max_nodes: usize,
@@ -136,7 +143,7 @@ fn reader(o: &mut Vec<Op>, r: &mut Rng, abs: Word, post: bool, contracts: &[Cont
     let key = gen_read_key(r);
     let (n, room) = if r.chance(hostile) {
         (*r.pick(&[-1i64, 5120, 5121, 6000, 1 << 20, 1 << 40, i64::MAX - 1, i64::MAX]), 40)
-    } else if r.chance(0.03) {
+    } else if !tiny() && r.chance(0.03) {
         // a long range: hundreds of consecutive keys, most of them mutated by nobody
         let n = *r.pick(&[65i64, 255, 256, 257, 300, 513, 600]);
         (n, n * 2 + 24)
@@ -196,7 +203,7 @@ fn producer(o: &mut Vec<Op>, r: &mut Rng) {
             6 => {
                 // a fork inside a loop: every child records the loop counter it sees (its parent's), then odd
                 // children leave - through a jump to ComputeEnd - while a loop of their own is still active
-                let n = *r.pick(&[3i64, 8, 40, 96]);
+                let n = if tiny() { 3 } else { *r.pick(&[3i64, 8, 40, 96]) };
                 o.extend([PUSH(2), PUSH(1), REP, PUSH(n), COM]);
                 o.extend([REPC, PUSH(1), ALOC, STO, PUSH(1), BAND]);
                 o.extend([PUSH(3), PUSH(0), REP, DUP, PUSH(2), SWAP, JMPIF, REPE, COME, REPE]);
@@ -208,7 +215,7 @@ fn producer(o: &mut Vec<Op>, r: &mut Rng) {
             }
             8 => {
                 // fork whose children consume the word they inherited (each child's stack is a private copy)
-                let n = *r.pick(&[2i64, 5, 16, 64]);
+                let n = if tiny() { 2 } else { *r.pick(&[2i64, 5, 16, 64]) };
                 o.extend([PUSH(r.range(100, 200)), PUSH(n), COM, POP, PUSH(1), ALOC, STO, PUSH(7), COME, POP]);
             }
             _ => o.extend([PUSH(r.range(1, 4)), ALOC, POP]),
